@@ -248,6 +248,10 @@ def generate(job):
         "ops": ops,
         "faults": [],
     }
+    if kind == "history" and rk.chance(0.15):
+        # the state a Newton-CG / trust-* fit (or an aborted fit) leaves behind: bounds still installed in the
+        # variable manager (fit_scipy removes them only on the BFGS/CG path)
+        spec["installed_bounds"] = [[rk.randrange(1000), rk.choice(["two", "lower", "upper"])] for _ in range(rk.randint(1, 2))]
     nf = job.get("faults", 0)
     if nf:
         # resolve fault positions with a dry run of the same schedule on a fresh model
@@ -322,6 +326,12 @@ class Session:
         self.traced = "use_tf_function" in STRATEGIES[spec["strategy"]]
         self.names = list(self.amp.get_params().keys())
         self.free = list(self.vm.trainable_vars)
+        for idx, side in spec.get("installed_bounds", []):
+            n = self.free[idx % len(self.free)]
+            v = float(self.amp.get_params()[n])
+            rng = {"two": (v - 1.0, v + 1.5), "lower": (v - 1.0, None), "upper": (None, v + 1.5)}[side]
+            self.vm.set_bound({n: rng})
+            log.count("probe.session_with_bounds_left_installed")
         self.nchains = len(list(self.dg.chains))
         self.resnames = [str(r) for r in self.dg.resonances]
         self.op_events = []
